@@ -638,6 +638,41 @@ def r4_order(program, folder, rep):
     rep.check(oka, "C12-R4", inst, "each target core is inserted under its "
               "chip's own (x, y)", construct="add_core arguments", node=fn)
     if oka:
+        # ... every one of them: no test on the chip or the core stands
+        # between the loops over the targets and the insertion
+        skip = [(t_, p_) for t_, p_ in T.all_facts(adds[0][0])
+                if any(st_ == E for st_ in subterms(t_))]
+        # (a test with several operands guards by paths, not by one fact:
+        # walk the loops - each iteration of each loop around the insertion
+        # must reach the next inner loop / the insertion itself)
+        cfg_ = T.cfg
+        target = adds[0][0]
+        node_ = adds[0][1]
+        lp_ = getattr(node_, "_parent", None)
+        while lp_ is not None and lp_ is not fn:
+            if isinstance(lp_, ast.For) and id(lp_) in cfg_.loop_head:
+                head_ = cfg_.loop_head[id(lp_)]
+                body_ = [s_ for s_ in head_.succ if s_.label == "forbody"]
+                if body_ and not cfg_.must_pass(
+                        body_[0], lambda n_, t_=target: n_ is t_,
+                        targets=[head_, cfg_.exit]):
+                    skip.append((("const", "an iteration of the loop at "
+                                  "line %d can end without reaching it" %
+                                  lp_.lineno), True))
+                target = head_
+            elif isinstance(lp_, ast.While):
+                break
+            lp_ = getattr(lp_, "_parent", None)
+        rep.check(not skip, "C12-R4", inst, "every target core is inserted "
+                  "(nothing is filtered out before add_core)",
+                  construct="all targets inserted", node=fn,
+                  fail="some targets never reach add_core (only those with "
+                       "%s do): the cores requested on the chips left out "
+                       "are missing from the regions and are never loaded" %
+                       "; ".join("%s%s" % ("" if p_ else "not ",
+                                           show(t_)[:60])
+                                 for t_, p_ in skip))
+    if oka:
         guards = T.all_facts(adds[0][0])
         rep.check(not guards, "C12-R4", inst, "every core of every target "
                   "chip is inserted: nothing filters the chips or cores",
